@@ -684,7 +684,7 @@ class Model:
         """
         if (cache := self._cache) is None:
             cache = self._create_cache()
-        return cache.base_parameter_values
+        return dict(cache.base_parameter_values)
 
     def get_parameter_names(self) -> list[str]:
         """Retrieve the names of the parameters.
@@ -1044,7 +1044,7 @@ class Model:
         """
         if (cache := self._cache) is None:
             cache = self._create_cache()
-        return cache.initial_conditions
+        return dict(cache.initial_conditions)
 
     def get_variable_names(self) -> list[str]:
         """Retrieve the names of all variables.
